@@ -1,11 +1,11 @@
 (* C14 -- Quantity and concentration strings mean what SI says. *)
-Require Import Base Units UnitsThm GenBase UnitsGen UnitsGenOK Parse ParseThm.
+Require Import Base Units UnitsThm GenBase UnitsTie Parse ParseThm.
 From Coq Require Import String Ascii.
 
 (* tie: the prefix table of the source (regenerated every run) is the model's, and the model's is SI *)
-Theorem C14_source_prefix_table : map fst gen_prefix_table = map pname all_prefixes /\
-  forall p, exists v, assoc (pname p) gen_prefix_table = Some v /\ v == pmult p.
-Proof. exact gen_prefix_table_eq_model. Qed.
+Theorem C14_source_prefix_table : map fst tie_prefix_table = map pname all_prefixes /\
+  forall p, exists v, assoc (pname p) tie_prefix_table = Some v /\ v == pmult p.
+Proof. exact tie_prefix_table_eq_model. Qed.
 Print Assumptions C14_source_prefix_table.
 Theorem C14_prefix_table_SI :
   pmult Pn == 1 / 10^9 /\ pmult Pu == 1 / 10^6 /\ pmult Pmu == 1 / 10^6 /\ pmult Pm == 1 / 10^3 /\ pmult Pc == 1 / 10^2 /\
